@@ -526,7 +526,10 @@ def _execute(env, cfg, factory, kind, body, crash, cdir, ctx_early):
         fails.append(("C12:sigint_handler_not_restored", "before %r after %r" % (s0["sigint"], s1["sigint"])))
     if s1["sigmask"] != s0["sigmask"]:
         fails.append(("C12:signal_mask_not_restored", "blocked signals before %r after %r" % (s0["sigmask"], s1["sigmask"])))
-        signal.pthread_sigmask(signal.SIG_SETMASK, s0["sigmask"])
+        try:
+            signal.pthread_sigmask(signal.SIG_SETMASK, s0["sigmask"])  # a SIGINT that was pending behind the mask arrives right here
+        except KeyboardInterrupt:
+            pass
     if s1["wakeup"] != s0["wakeup"]:
         fails.append(("C12:wakeup_fd_not_restored", "before %r after %r" % (s0["wakeup"], s1["wakeup"])))
     if s1["fds"] != s0["fds"]:
